@@ -858,4 +858,58 @@ theorem operand_simple_frags (ns : NsMap) (vs : Vars) (frags : List Frag) (hok :
     | none => simp [List.getLast?_eq_none_iff] at hl; rw [hl] at hne; simp at hne
     | some last => exact ⟨last, rfl, (mem_normPath frags last (List.mem_of_getLast? hl)).1⟩
 
+/-! ## Checking a fragment list; the strategy `Path.__init__` picks -/
+
+/-- `FragsOk` as a computation -/
+def fragsOkB (frags : List Frag) : Bool :=
+  frags.all (fun f => f.pi == calculatePi f.tests && f.attr.isNone && f.tests.all simpleT) &&
+  (frags.drop 1).all (fun f => !f.tests.isEmpty) &&
+  (match frags with
+   | [] => false
+   | f0 :: fs => !f0.tests.isEmpty || (!f0.selfBeginning && !fs.isEmpty))
+
+theorem fragsOk_of_B (frags : List Frag) (h : fragsOkB frags = true) : FragsOk frags := by
+  simp only [fragsOkB, Bool.and_eq_true, List.all_eq_true] at h
+  obtain ⟨⟨h1, h2⟩, h3⟩ := h
+  refine ⟨?_, ?_, ?_, ?_, ?_⟩
+  · intro f hf; obtain ⟨⟨a, _⟩, _⟩ := h1 f hf; simpa using a
+  · intro f hf; obtain ⟨⟨_, b⟩, _⟩ := h1 f hf; simpa using b
+  · intro f hf t ht; obtain ⟨_, c⟩ := h1 f hf
+    first | exact c t ht | (simp only [List.all_eq_true] at c; exact c t ht)
+  · intro i f hf
+    have hmem : f ∈ frags.drop 1 := by
+      have : (frags.drop 1)[i]? = some f := by rw [List.getElem?_drop]; simpa [Nat.add_comm] using hf
+      exact List.mem_of_getElem? this
+    have := h2 f hmem
+    intro he; simp [he] at this
+  · cases frags with
+    | nil => simp at h3
+    | cons f0 fs =>
+      refine ⟨f0, rfl, fun he => ?_⟩
+      simp [he] at h3
+      exact ⟨h3.1, by cases fs <;> simp_all⟩
+
+theorem simpleSupports_normPath (frags : List Frag) (hok : FragsOk frags) : simpleSupports (normPath frags) = true := by
+  have hne := normPath_ne frags hok
+  have hall : ∀ s ∈ normPath frags, s.axis ≠ .attribute ∧ s.preds = [] ∧ simpleT s.test = true := by
+    intro s hs
+    obtain ⟨h1, ⟨f, hf, ht⟩, h3⟩ := mem_normPath frags s hs
+    exact ⟨h1, h3, hok.simple f hf _ ht⟩
+  cases hp : normPath frags with
+  | nil => rw [hp] at hne; simp at hne
+  | cons s0 rest =>
+    rw [hp] at hall
+    simp only [simpleSupports, Bool.and_eq_true, List.all_eq_true, bne_iff_ne, ne_eq]
+    refine ⟨(hall s0 List.mem_cons_self).1, fun s hs => ?_⟩
+    obtain ⟨_, h2, h3⟩ := hall s hs
+    rcases simpleT_cases s.test h3 with ⟨n, h⟩ | h | h <;> simp [h2, h]
+
+/-- `Path.__init__` hands the path of a fragment list with two or more steps to
+    SimplePathStrategy -/
+theorem chooses_simple (frags : List Frag) (hok : FragsOk frags) (h2 : 2 ≤ (normPath frags).length) :
+    chooseStrategy (normPath frags) = some .simple := by
+  have ho : strategyOrder = [.single, .simple, .generic] := by decide
+  have h1 : singleSupports (normPath frags) = false := by simp [singleSupports]; omega
+  simp [chooseStrategy, ho, List.find?, Strategy.supports, h1, simpleSupports_normPath frags hok]
+
 end Genshi.Path.Frags
